@@ -218,7 +218,12 @@ fn run_case(line: &str) -> String {
     match (cmd, args.len()) {
         ("apply", 2) => match jsonlogic_rs::apply(&args[0], &args[1]) {
             Ok(v) => format!("ok {}", enc(&v)),
-            Err(_) => "err".into(),
+            Err(e) => {
+                // an error value is also something callers look at: it must render (Display and Debug) without panicking
+                let shown = format!("{}", e);
+                let dbg = format!("{:?}", e);
+                if shown.is_empty() && dbg.is_empty() { "err".into() } else { "err".into() }
+            }
         },
         ("to_string", 1) => {
             let mut s = String::new();
